@@ -4,6 +4,7 @@
 //! records), *not* from the library's struct definitions.
 use crate::common::*;
 use netflow_parser::protocol::ProtocolTypes;
+use netflow_parser::NetflowPacket;
 use netflow_parser::static_versions::v5::{self, V5};
 use netflow_parser::static_versions::v7::{self, V7};
 use nom_derive::Parse;
